@@ -67,6 +67,11 @@ func (p *entityPool) Recycle(e Entity) {
 
 // Reset recycles all entities. Does NOT free the reserved memory.
 func (p *entityPool) Reset() {
+	// Invalidate all handles issued so far. Alive reads generations through the raw
+	// pointer without bounds check, also beyond the shortened length of the slice.
+	for i := int(p.reserved); i < len(p.entities); i++ {
+		p.entities[i].gen = math.MaxUint32
+	}
 	p.entities = p.entities[:p.reserved]
 	p.next = 0
 	p.available = 0
